@@ -32,6 +32,8 @@ inductive Tok
   | writeEfd | readEfd             -- write()/read() on the eventfd (or pipe)
   | doLoop | whileCond             -- `do` / `while (`
   | ifEintr | ifEagain             -- errno == EINTR / errno == EAGAIN tests
+  | plainStore (v : Var) (n : Int) -- non-atomic `h->pending = n` / `h->u.fd = n`
+  | restart                        -- uv__async_start(loop): new eventfd
   | cbNullCheck                    -- if (h->async_cb == NULL)
   | callback                       -- h->async_cb(h)
   | queueMove | queuePop           -- uv__queue_move(&loop->async_handles,&queue) / head+remove+insert_tail
@@ -100,6 +102,9 @@ inductive Act
   | loop                -- the loop thread performs its next step
   | close (h : Nat)     -- the loop thread calls uv_close(h) (between polls or inside an async callback)
   | closeCbs            -- the loop thread runs the pending close callbacks (uv__run_closing_handles)
+  | fork                -- fork(): the transitions continue in the CHILD, whose loop thread calls uv_loop_fork ->
+                        -- uv__async_fork (360-399): every other thread is gone, pending/busy of the listed handles are
+                        -- cleared, a fresh (empty) eventfd replaces the inherited one; sends not yet delivered are dropped
   | eintr (w : Option Nat)  -- environment: the eventfd write of sender t (`some t`) / the loop's eventfd read (`none`)
                             -- is interrupted (-1/EINTR); async.c retries (243-245, 186-187): no state change
   deriving DecidableEq, Repr
@@ -178,6 +183,12 @@ def step? (s : State) : Act → Option State
       if h < s.nh ∧ (s.hs h).closing = false then
         some { setH s h { s.hs h with closing := true } with lpc := .closeStore h r }
       else none
+  | .fork =>
+    if s.lpc = .idle then
+      some { s with efd := 0,
+                    hs := fun h => if h ∈ s.handles then { s.hs h with pending := 0, busy := 0 } else s.hs h,
+                    snd := s.snd.map fun x => { x with pc := .idle, sent := false } }
+    else none
   | .eintr none => if s.lpc = .drain then some s else none
   | .eintr (some t) =>
     match s.snd[t]? with
@@ -232,6 +243,8 @@ def soloClose : List LPc :=
 
 def spinProgram : List Tok := soloClose.flatMap LPc.toks
 def closeProgram : List Tok := [.spin, .unlink, .handleStop]
+/-- uv__async_fork: (never started: return) walk the handle list clearing pending and busy, close the fds, start again -/
+def forkProgram : List Tok := [.ret, .queueMove, .whileCond, .queuePop, .plainStore .pending 0, .plainStore .busy 0, .ret, .restart]
 /-- uv__async_send: write (retried on EINTR); return when written; return on EAGAIN; else abort -/
 def wakeupProgram : List Tok := [.doLoop, .writeEfd, .whileCond, .ifEintr, .ret, .ifEagain, .ret]
 
